@@ -5,6 +5,7 @@ import (
 	"go/constant"
 	"go/token"
 	"go/types"
+	"os"
 	"strings"
 
 	"golang.org/x/tools/go/ssa"
@@ -506,7 +507,6 @@ func runC17(c *Ctx) {
 	c17Shapes(c)
 	c17RegexpOwnPattern(c)
 	c17PositionsAreErrors(c, "C17.positions-reach-the-slice")
-	c17BoundsByCases(c, "C17.bounds-by-cases")
 }
 
 func c17Shapes(c *Ctx) {
@@ -577,6 +577,25 @@ func c17Shapes(c *Ctx) {
 							}
 						}
 					}
+					// ... or behind "an occurrence exists": LastIndex(..) >= 0 (then t is no longer than s, and its last
+					// occurrence ends s exactly when t is a suffix)
+					if !guarded && cal.String() == "strings.LastIndex" {
+						for d := b; d != nil && !guarded; d = d.Idom() {
+							for _, p := range d.Preds {
+								iff, isIf := p.Instrs[len(p.Instrs)-1].(*ssa.If)
+								if !isIf || p.Succs[0] != d || len(d.Preds) != 1 {
+									continue
+								}
+								g, isG := iff.Cond.(*ssa.BinOp)
+								if !isG || g.X != ssa.Value(call) {
+									continue
+								}
+								if k, isK := constIntArg(g.Y); isK && (g.Op == token.GEQ && k == 0 || g.Op == token.GTR && k == -1 || g.Op == token.NEQ && k == -1) {
+									guarded = true
+								}
+							}
+						}
+					}
 					if !guarded {
 						bad = true
 					}
@@ -602,11 +621,14 @@ func c17Shapes(c *Ctx) {
 		c.R.Check(rule, "startWith-index-zero", c.P.Pos(f.Pos()), ok, "`startWith` must test that the first occurrence is at index 0 (or use HasPrefix)")
 	}
 	// left: v[:l] ; right: v[len(v)-l:] ; lpad: padding + s ; rpad: s + padding
+	// (a slice whose bounds are computed another way - a shared window helper - is judged by cases instead:
+	// C17.bounds-by-cases decides every sample point of the builtin by folding)
+	c17BoundsByCases(c, "C17.bounds-by-cases")
 	if f := c.BuiltinFn("left"); f != nil {
-		c.R.Check(rule, "left-slices-from-start", c.P.Pos(f.Pos()), sliceShape(f, true), "`left(s, n)` must slice from the start of s (s[:n])")
+		c.R.Check(rule, "left-slices-from-start", c.P.Pos(f.Pos()), sliceShape(f, true) || c17CasesDecided(c, "left"), "`left(s, n)` must slice from the start of s (s[:n])")
 	}
 	if f := c.BuiltinFn("right"); f != nil {
-		c.R.Check(rule, "right-slices-to-end", c.P.Pos(f.Pos()), sliceShape(f, false), "`right(s, n)` must slice to the end of s (s[len(s)-n:])")
+		c.R.Check(rule, "right-slices-to-end", c.P.Pos(f.Pos()), sliceShape(f, false) || c17CasesDecided(c, "right"), "`right(s, n)` must slice to the end of s (s[len(s)-n:])")
 	}
 	// mid: when written as a slice of s, the bounds are start (floored at 0) and end (capped at len(s)). A version
 	// composed from other builtins is not decided here: whether composed clamps agree is arithmetic, not shape.
@@ -728,7 +750,7 @@ func c17Shapes(c *Ctx) {
 			check(sl.High, 2, "end", true)
 		})
 		if direct {
-			c.R.Check(rule, "mid-slices-between", c.P.Pos(f.Pos()), good, "`mid(s, i, j)` must be s[i:j] with i floored at 0 and j capped at len(s); "+why)
+			c.R.Check(rule, "mid-slices-between", c.P.Pos(f.Pos()), good || c17CasesDecided(c, "mid"), "`mid(s, i, j)` must be s[i:j] with i floored at 0 and j capped at len(s); "+why)
 		} else {
 			c.R.Add(rule, "mid-slices-between", c.P.Pos(f.Pos()), OK, "")
 		}
@@ -1003,22 +1025,43 @@ func runC18(c *Ctx) {
 		ok := true
 		why := ""
 		n := 0
-		instrs(f, func(b *ssa.BasicBlock, i int, in ssa.Instruction) {
-			ret, isR := in.(*ssa.Return)
-			if !isR || isNilConst(ret.Results[0]) {
-				return
-			}
-			n++
-			for _, rt := range plainOrigins.Roots(ret.Results[0]) {
-				switch {
-				case rt.Kind == "param" && len(rt.Path) >= 1:
-				case rt.Kind == "call" && rt.Fn != nil && (rt.Fn.String() == decimalPath+".Max" || rt.Fn.String() == decimalPath+".Min"):
-				default:
-					ok = false
-					why = rt.String()
+		var selects func(g *ssa.Function, depth int)
+		selects = func(g *ssa.Function, depth int) {
+			instrs(g, func(b *ssa.BasicBlock, i int, in ssa.Instruction) {
+				ret, isR := in.(*ssa.Return)
+				if !isR || isNilConst(ret.Results[0]) {
+					return
 				}
-			}
-		})
+				n++
+				for _, rt := range plainOrigins.Roots(ret.Results[0]) {
+					switch {
+					case rt.Kind == "param" && len(rt.Path) >= 1:
+					case rt.Kind == "call" && rt.Fn != nil && (rt.Fn.String() == decimalPath+".Max" || rt.Fn.String() == decimalPath+".Min"):
+					case rt.Kind == "call" && rt.Fn != nil && c.inModule(rt.Fn) && len(rt.Fn.Blocks) > 0 && depth < 2 && rt.Idx == 0 && len(rt.Path) == 0:
+						// a selection helper: it is handed the argument list itself and hands back one of its elements
+						call := rt.V.(*ssa.Call)
+						passes := false
+						for _, a := range call.Call.Args {
+							for _, r2 := range plainOrigins.Roots(a) {
+								if r2.Kind == "param" && r2.V.Parent() == g && len(r2.Path) == 0 && !r2.Conv {
+									passes = true
+								}
+							}
+						}
+						if !passes {
+							ok = false
+							why = rt.String() + " (not handed the argument list)"
+							continue
+						}
+						selects(rt.Fn, depth+1)
+					default:
+						ok = false
+						why = rt.String()
+					}
+				}
+			})
+		}
+		selects(f, 0)
 		c.R.Check("C18.selects-an-argument", name, c.P.Pos(f.Pos()), ok && n > 0, "`"+name+"` must return one of its arguments (an argument that bounds all the others); it can return "+why+", a value that is none of them (e.g. a zero seed for all-negative arguments)")
 	}
 }
@@ -1193,7 +1236,25 @@ func c18MaxPolarity(c *Ctx) {
 			if !ok {
 				return
 			}
+			switch bo.Op {
+			case token.EQL, token.NEQ, token.LSS, token.LEQ, token.GTR, token.GEQ:
+			default:
+				return
+			}
 			call, ok := bo.X.(*ssa.Call)
+			scaled := false
+			if !ok {
+				// v.Cmp(best)*sign OP z with a constant sign (max and min sharing one loop)
+				if mul, isM := bo.X.(*ssa.BinOp); isM && mul.Op == token.MUL {
+					for _, pr := range [][2]ssa.Value{{mul.X, mul.Y}, {mul.Y, mul.X}} {
+						if cl, isC := pr[0].(*ssa.Call); isC {
+							if _, isK := constIntArg(pr[1]); isK {
+								call, ok, scaled = cl, true, true
+							}
+						}
+					}
+				}
+			}
 			if !ok || calleeOf(call) == nil || !strings.HasSuffix(calleeOf(call).String(), "Big).Cmp") {
 				return
 			}
@@ -1204,6 +1265,25 @@ func c18MaxPolarity(c *Ctx) {
 			// v.Cmp(best) OP z: replacing on "greater" means (GTR,0) (GEQ,1) (EQL,1)
 			greater := (bo.Op == token.GTR && z == 0) || (bo.Op == token.GEQ && z == 1) || (bo.Op == token.EQL && z == 1)
 			less := (bo.Op == token.LSS && z == 0) || (bo.Op == token.LEQ && z == -1) || (bo.Op == token.EQL && z == -1)
+			if scaled {
+				// by cases over the three outcomes of Cmp
+				var vec [3]int
+				for k := -1; k <= 1; k++ {
+					r := c.foldWith(f, 0, pinValue(call, constant.MakeInt64(int64(k))))
+					vec[k+1] = -1
+					if lv := r.Val(bo); lv.K == lConst && lv.C.Kind() == constant.Bool {
+						vec[k+1] = 0
+						if constant.BoolVal(lv.C) {
+							vec[k+1] = 1
+						}
+					}
+				}
+				if os.Getenv("FCHECK_DEBUG") != "" {
+					fmt.Println("scaled comparison in", f.Name(), "vector", vec)
+				}
+				greater = vec == [3]int{0, 0, 1}
+				less = vec == [3]int{1, 0, 0}
+			}
 			// receiver is the candidate element, argument the running best?
 			c.R.Check(rule, spec.name+"-comparison", c.P.InstrPos(in), (spec.gt && greater) || (!spec.gt && less), "`"+spec.name+"` replaces its running result on the wrong comparison outcome")
 			// one side of the comparison is the running result: a loop-carried value that is updated only when the
